@@ -243,8 +243,33 @@ void __wrap_free(void *ptr)
     logging = 1;
 }
 
+/* DRIVER_STACKFILL=<0..255>: before every library call the stack below the
+   caller is filled with that byte (results must not depend on it) */
+static int stackfill = -1;
+static void __attribute__((noinline)) fill_stack(int v)
+{
+    volatile unsigned char junk[49152];
+    size_t i;
+    for (i = 0; i < sizeof(junk); i++)
+        junk[i] = (unsigned char)v;
+}
+
+/* DRIVER_CT=1 (run under valgrind memcheck): key, tweak, counter and data
+   bytes are marked undefined before the library sees them, so memcheck
+   reports every branch and every address that depends on them */
+#ifdef DRIVER_WITH_VALGRIND
+#include <valgrind/memcheck.h>
+static int ct_mode;
+#define CT_SECRET(p, n) do { if (ct_mode && (p) && (n)) VALGRIND_MAKE_MEM_UNDEFINED((p), (n)); } while (0)
+#define CT_PUBLIC(p, n) do { if (ct_mode && (p) && (n)) VALGRIND_MAKE_MEM_DEFINED((p), (n)); } while (0)
+#else
+#define CT_SECRET(p, n) ((void)0)
+#define CT_PUBLIC(p, n) ((void)0)
+#endif
+
 /* Run a library call with allocator logging switched on */
-#define LIB(stmt) do { logging = 1; stmt; logging = 0; } while (0)
+#define LIB(stmt) do { if (stackfill >= 0) fill_stack(stackfill); \
+                       logging = 1; stmt; logging = 0; } while (0)
 
 /* ------------------------------------------------------------------ */
 /* CPUID / XGETBV hooks                                               */
@@ -928,7 +953,9 @@ static void op_set(SetFn fn, int extra, void *obj, char **t, int nt)
     if (extra >= 2)
         mode = parse_int(t[6]);
     p = buf_from(&a, &data, 0);
+    CT_SECRET(p, data.len);
     LIB(r = fn(obj, p, n, rounds, mode));
+    CT_PUBLIC(p, data.len);
     emit("ret %d", r);
     arena_done(&a, "key/tweak/counter buffer");
     bytes_free(&data);
@@ -954,7 +981,12 @@ static void op_ecb(EcbFn fn, size_t bs, int has_tweak, void *ks, char **t, int n
     }
     parse_opts(t, nt, 4 + has_tweak, O_OVL | O_AI | O_AO, &o);
     io_setup(&io, &in, bs, &o, bs);
+    CT_SECRET(io.in, bs);
+    CT_SECRET(ptw, tw.len);
     LIB(fn(io.out, io.in, ptw, ks));
+    CT_PUBLIC(io.in, bs);
+    CT_PUBLIC(ptw, tw.len);
+    CT_PUBLIC(io.out, bs);
     line_begin();
     fputs("out ", stdout);
     put_hex(io.out, bs);
@@ -998,7 +1030,12 @@ static void op_bulk(BulkFn fn, size_t bs, int has_tweak, unsigned allowed,
     parse_opts(t, nt, 5 + has_tweak, allowed, &o);
     outlen = in.null ? (want < NULL_IN_CAP ? want : NULL_IN_CAP) : in.len;
     io_setup(&io, &in, outlen, &o, 0);
+    CT_SECRET(io.in, in.null ? 0 : in.len);
+    CT_SECRET(ptw, tw.len);
     LIB(r = fn(io.out, io.in, ptw, n, obj));
+    CT_PUBLIC(io.in, in.null ? 0 : in.len);
+    CT_PUBLIC(ptw, tw.len);
+    CT_PUBLIC(io.out, io.outlen);
     line_begin();
     printf("ret %d", r);
     if (r != 0 && io.out != NULL) {
@@ -1211,6 +1248,11 @@ int main(int argc, char **argv)
     ssize_t got;
     unsigned id;
 
+    if (getenv("DRIVER_STACKFILL"))
+        stackfill = atoi(getenv("DRIVER_STACKFILL")) & 255;
+#ifdef DRIVER_WITH_VALGRIND
+    ct_mode = getenv("DRIVER_CT") != NULL;
+#endif
     if (argc == 2 && !strcmp(argv[1], "--cpuinfo")) {
         /* describe the real CPU for the model: maxleaf l1ecx l1edx l7ebx0 l7ebx1 xcr0 */
         unsigned r0[4], r1[4], r70[4], r71[4];
